@@ -1,6 +1,6 @@
 (* Net/TableProofs.v — invariants of the node-table model Net/Table.v. *)
 From GV Require Import Lib.Tactics Net.Table.
-From Coq Require Import Permutation.
+From Coq Require Import Permutation Sorted FinFun.
 Local Open Scope N_scope.
 
 (* ================= DistinctNetSet ================= *)
@@ -94,9 +94,12 @@ Qed.
 
 (* ================= counting tracked addresses ================= *)
 
+Section WithKey.
+Context {K : KeyFn}.
+
 (* weight of an address in the counter of subnet k: LAN addresses are never counted *)
 Definition ipw (a : ip) (k : N) : N :=
-  if negb (addr_is_lan a) && (net_key a =? k) then 1 else 0.
+  if negb (addr_is_lan a) && (key_of a =? k) then 1 else 0.
 
 Fixpoint cntr (k : N) (l : list rec) : N :=
   match l with [] => 0 | r :: l' => ipw (r_ip r) k + cntr k l' end.
@@ -113,7 +116,7 @@ Proof. unfold ipw. destruct (_ && _); lia. Qed.
 Lemma ipw_lan a k : addr_is_lan a = true -> ipw a k = 0.
 Proof. unfold ipw. intros ->. reflexivity. Qed.
 
-Lemma ipw_key a k : addr_is_lan a = false -> ipw a k = if k =? net_key a then 1 else 0.
+Lemma ipw_key a k : addr_is_lan a = false -> ipw a k = if k =? key_of a then 1 else 0.
 Proof. unfold ipw. intros ->. cbn [negb andb]. rewrite N.eqb_sym. reflexivity. Qed.
 
 (* ================= list helpers ================= *)
@@ -219,27 +222,27 @@ Proof.
   destruct (addr_is_lan a) eqn:Elan.
   { injection E as <- <-. split; [reflexivity|split; [reflexivity|split; [exact Hadd|]]].
     apply CS_intro; [exact Hb|exact Ht|]. intros k. rewrite ipw_lan by auto. destruct (Hg k). lia. }
-  destruct (ns_add table_ip_limit (net_key a) (lt L)) as [t1 ok1] eqn:E1.
+  destruct (ns_add table_ip_limit (key_of a) (lt L)) as [t1 ok1] eqn:E1.
   destruct (ns_add_spec _ _ _ _ _ Ht E1) as [Ht1 Hs1].
   destruct ok1; cbn [negb] in E.
   2:{ injection E as <- <-. auto. }
   destruct Hs1 as [Hlt1 Hg1].
-  destruct (ns_add bucket_ip_limit (net_key a) (bips (lb L))) as [b1 ok2] eqn:E2.
+  destruct (ns_add bucket_ip_limit (key_of a) (bips (lb L))) as [b1 ok2] eqn:E2.
   destruct (ns_add_spec _ _ _ _ _ Hb E2) as [Hb1 Hs2].
   destruct ok2; cbn [negb] in E; injection E as <- <-; cbn [lb lt entries repl bips].
   - destruct Hs2 as [Hlt2 Hg2]. split; [reflexivity|split; [reflexivity|split; [exact Hadd|]]].
     apply CS_intro; [exact Hb1|exact Ht1|]. intros k. cbn [lb lt bips].
     rewrite Hg2, Hg1, ipw_key by auto. destruct (Hg k). lia.
   - destruct Hs2 as [_ ->].
-    destruct (ns_remove_spec table_ip_limit (net_key a) t1 Ht1) as [Ht2 Hg2]; [reflexivity|].
+    destruct (ns_remove_spec table_ip_limit (key_of a) t1 Ht1) as [Ht2 Hg2]; [reflexivity|].
     split; [reflexivity|split; [reflexivity|]].
     apply CS_intro; [exact Hb|exact Ht2|]. intros k. cbn [lb lt bips].
-    rewrite Hg2, Hg1. destruct (Hg k). destruct (k =? net_key a); lia.
+    rewrite Hg2, Hg1. destruct (Hg k). destruct (k =? key_of a); lia.
 Qed.
 
 Lemma add_ip_success L a w rest :
   CS L w rest -> addable a = true ->
-  (addr_is_lan a = true \/ (w (net_key a) < 2 /\ rest (net_key a) + w (net_key a) < 10)) ->
+  (addr_is_lan a = true \/ (w (key_of a) < 2 /\ rest (key_of a) + w (key_of a) < 10)) ->
   exists L', add_ip L a = (L', true).
 Proof.
   intros (Hb & Ht & Hg) Ha Hc. unfold add_ip.
@@ -247,10 +250,10 @@ Proof.
   { unfold addable in Ha. destruct (ip_valid a), (is_unspecified a); cbn in *; congruence. }
   rewrite E. destruct (addr_is_lan a) eqn:Elan; [eauto|].
   destruct Hc as [Hc|[Hc1 Hc2]]; [discriminate|].
-  destruct (Hg (net_key a)) as [Hgb Hgt].
-  unfold ns_add. replace (ns_get (net_key a) (lt L) <? table_ip_limit) with true
+  destruct (Hg (key_of a)) as [Hgb Hgt].
+  unfold ns_add. replace (ns_get (key_of a) (lt L) <? table_ip_limit) with true
     by (unfold table_ip_limit; lia).
-  cbn [negb]. replace (ns_get (net_key a) (bips (lb L)) <? bucket_ip_limit) with true
+  cbn [negb]. replace (ns_get (key_of a) (bips (lb L)) <? bucket_ip_limit) with true
     by (unfold bucket_ip_limit; lia).
   cbn [negb]. eauto.
 Qed.
@@ -265,11 +268,11 @@ Proof.
   { split; [reflexivity|split; [reflexivity|]]. apply CS_intro; [exact Hb|exact Ht|].
     intros k. rewrite ipw_lan by auto. destruct (Hg k). lia. }
   cbn [lb lt entries repl bips].
-  destruct (ns_remove_spec 2 (net_key a) _ Hb) as [Hb2 Hgb]; [reflexivity|].
-  destruct (ns_remove_spec 10 (net_key a) _ Ht) as [Ht2 Hgt]; [reflexivity|].
+  destruct (ns_remove_spec 2 (key_of a) _ Hb) as [Hb2 Hgb]; [reflexivity|].
+  destruct (ns_remove_spec 10 (key_of a) _ Ht) as [Ht2 Hgt]; [reflexivity|].
   split; [reflexivity|split; [reflexivity|]]. apply CS_intro; [exact Hb2|exact Ht2|].
   intros k. cbn [lb lt bips]. rewrite Hgb, Hgt, ipw_key by auto. destruct (Hg k). specialize (Hw k).
-  rewrite ipw_key in Hw by auto. destruct (k =? net_key a); lia.
+  rewrite ipw_key in Hw by auto. destruct (k =? key_of a); lia.
 Qed.
 
 (* ================= the bag of tracked records of one bucket ================= *)
@@ -429,8 +432,8 @@ Proof.
       cbn [negb] in E.
       destruct (add_ip_success Lb (n_ip n) _ rest Hok Hadd_old) as [Lc Ec].
       { destruct (addr_is_lan (n_ip n)) eqn:Elan; [left; reflexivity|right].
-        destruct (LInv_bound s i rest L (net_key (n_ip n)) (conj HS HC)) as [B1 B2].
-        pose proof (cntr_in (net_key (n_ip n)) _ _ Hin) as Hle. unfold n_ip in *.
+        destruct (LInv_bound s i rest L (key_of (n_ip n)) (conj HS HC)) as [B1 B2].
+        pose proof (cntr_in (key_of (n_ip n)) _ _ Hin) as Hle. unfold n_ip in *.
         rewrite ipw_key in * by exact Elan. rewrite N.eqb_refl in *. lia. }
       rewrite Ec in E. cbn [fst] in E. injection E as <- <- <-.
       destruct (add_ip_spec _ _ _ _ _ _ Hok Ec) as (Hce & Hcr & _ & HCc).
@@ -953,7 +956,6 @@ Proof.
 Qed.
 
 (* ================= findnodeByID ================= *)
-From Coq Require Import Sorted.
 
 Section Closest.
 Variable target : N.
@@ -1115,7 +1117,6 @@ Proof.
 Qed.
 End Closest.
 
-From Coq Require Import FinFun.
 
 Lemma nodup_app {A} (a b : list A) :
   NoDup a -> NoDup b -> (forall x, In x a -> ~ In x b) -> NoDup (a ++ b).
@@ -1248,7 +1249,7 @@ Definition all_tracked (t : table) : list tnode := flat_map tracked (buckets t).
 
 (* number of tracked non-LAN nodes whose address falls into subnet k *)
 Definition subnet_count (k : N) (l : list tnode) : N :=
-  N.of_nat (length (filter (fun n => negb (addr_is_lan (n_ip n)) && (net_key (n_ip n) =? k)) l)).
+  N.of_nat (length (filter (fun n => negb (addr_is_lan (n_ip n)) && (key_of (n_ip n) =? k)) l)).
 
 Lemma subnet_count_app k l1 l2 : subnet_count k (l1 ++ l2) = subnet_count k l1 + subnet_count k l2.
 Proof. unfold subnet_count. rewrite filter_app, app_length. lia. Qed.
@@ -1388,4 +1389,16 @@ Proof.
   clear -Hrun Hst. revert Hrun. generalize (new_table s). induction ops as [|x ops IH]; intros t0; cbn [run app].
   - intros E. injection E as ->. rewrite Hst. reflexivity.
   - destruct (step t0 x); [apply IH|discriminate].
+Qed.
+
+End WithKey.
+
+(* an IPv4-mapped address has the subnet key of the IPv4 address it stands for *)
+Lemma net_key_mapped a : a < 2 ^ 32 -> net_key (IP6 (65535 * 2 ^ 32 + a)) = net_key (IP4 a).
+Proof.
+  intros Ha. change (2 ^ 32) with 4294967296 in *. unfold net_key, unmap, is4in6.
+  rewrite N.shiftr_div_pow2. change (2 ^ 32) with 4294967296.
+  replace ((65535 * 4294967296 + a) / 4294967296) with 65535 by lia.
+  cbn [N.eqb Pos.eqb]. replace ((65535 * 4294967296 + a) mod 4294967296) with a by lia.
+  reflexivity.
 Qed.
